@@ -296,8 +296,8 @@ def install_execute2(w):
             requires=[],
             result=ListT(E),
             fresh_result=True,
-            modifies=[],
-            may_raise=[AssertionError, sqlglot.errors.ParseError],
+            modifies=["$ghost:$parse_n", "$ghost:$parse_text"],  # (merge parses the statements it generates)
+            may_raise=[AssertionError, sqlglot.errors.ParseError, AttributeError],
             ensures={"C12.explode.nonempty": "len(result) >= 1", "C12.explode.passthrough": "implies(not isinstance(expression, exp.Merge), len(result) == 1 and result[0] is expression)"},
             props=["C12"],
         )
@@ -415,7 +415,7 @@ def install_describe(w):
     Conn = fakesnow.conn.FakeSnowflakeConnection
     M = "fakesnow.cursor.FakeSnowflakeCursor."
     X = w.contracts[M + "_execute"]
-    ghosts = [m for m in X.modifies if m.startswith("$ghost:")]
+    ghosts = [m for m in X.modifies if m.startswith("$ghost:")] + ["$ghost:$parse_n", "$ghost:$parse_text"]  # (the DESCRIBE text is parsed)
     # C06: reading the description never changes the pending result set, the data or the session:
     # nothing reachable from the cursor or its connection is modified (only DuckDB's statement trace / last-result ghosts)
     w.add_contract(
